@@ -702,6 +702,7 @@ def rule_reader_admits(ctx):
     from ..engine import report as R
     from . import C08
     C08.rule_reader(R.Retag(ctx, "C08."))
+    C08.rule_tls_gate(R.Retag(ctx, "C08."))
 
 
 def rule_lists_reported_under_their_own_name(ctx):
@@ -713,7 +714,39 @@ def rule_lists_reported_under_their_own_name(ctx):
     ctx.floor("R7", "struct literals in the TLS crate", n, 5)
 
 
+def rule_report_values_distinct(ctx):
+    """R7: the textual report prints each fingerprint under its own label: one formatted write of a Display impl of the TLS crate never
+    prints the same value twice (none of the reference tree's writes does; `JA4_o: {}` filled with the value of `JA4: {}` is the
+    copy-and-paste form of reporting one list under another's name)"""
+    P = ctx.program
+    n = 0
+    for b in sorted(P.bodies.values(), key=lambda x: x.path):
+        if b.crate != "huginn_net_tls" or b.name != "fmt" or "Display" not in (b.impl_trait or b.path):
+            continue
+        S = T.Slicer(b, P)
+        for blk, t in b.calls():
+            if not callee_of(t).endswith("::write_fmt") or len(t["args"]) < 2:
+                continue
+            try:
+                pcs = PA.arguments_pieces(S.operand(t["args"][1], blk, len(b.blocks[blk]["s"])))
+            except Exception:
+                pcs = None
+            if not pcs:
+                continue
+            holes = [T.pp(x[1]) for x in pcs if x[0] == "hole" and x[1] is not None]
+            if len(holes) < 2:
+                continue
+            n += 1
+            dup = sorted(h for h in set(holes) if holes.count(h) > 1)
+            who = (b.impl_self or b.path).split("::")[-1]
+            ctx.check(not dup, "R7", "display:%s:values-distinct" % who, "%d values printed, all different" % len(holes),
+                      "the Display impl of %s prints %s twice in one write: one of the two labels reports another field's value" % (who, [d[:60] for d in dup]),
+                      ctx.loc(b, blk))
+    ctx.floor("R7", "multi-value writes in Display impls of the TLS crate", n, 2)
+
+
 def run(ctx):
+    rule_report_values_distinct(ctx)
     rule_lists_reported_under_their_own_name(ctx)
     rule_extension_wire_type(ctx)
     rule_reader_admits(ctx)
